@@ -224,6 +224,8 @@ BASE_SLOTS = [s for s in SLOT_NAMES if s not in ("traj", "metric")]
 
 
 def pool(slot):
+    if slot == "intarg":  # pseudo-slot: the hand-enumerated integer-indexed problems INTARG
+        return [(lab, 1) for lab, _ps in INTARG]
     name, kind, ai = next(s for s in SLOTS if s[0] == slot)
     if kind in ("cond", "eff"):
         _an, _params, X, Y = ACTIONS[ai]
@@ -259,6 +261,11 @@ def mentions(x, names):
 def make(choices, variant=None):
     """choices: dict slot -> pool index (non-default slots only) -> problem spec.
     variant "bool": the same universe without the numeric fluents n, c, m."""
+    if "intarg" in choices:  # pseudo-slot: one of the hand-enumerated INTARG problems
+        lab, ps = INTARG[choices["intarg"]]
+        if variant == "bool" and lab.split(":")[1].startswith("cnt"):
+            return None
+        return dict(ps)
     ch = {s: pool(s)[i][0] for s, i in choices.items()}
     undef = ch.get("undef")
     fluents = [
@@ -387,3 +394,55 @@ def case_ids(tier, slots=None):
         for cid in ids(level, slots, core_only):
             out.append((level, cid))
     return out
+
+
+# ======================================================================================
+# family intarg: fluents indexed by a bounded integer, written / read through ARITHMETIC argument
+# expressions of integer action parameters (the ground fluent only appears after simplification)
+def _intarg_specs():
+    P = lambda n: ("p", n)
+    wargs = [("i+1", ("+", P("i"), I(1))), ("2-i", ("-", I(2), P("i"))), ("i*2", ("*", P("i"), I(2)))]
+    rargs = [("j", P("j")), ("2-j", ("-", I(2), P("j")))]
+    out = []
+    for wn, wa in wargs:
+        for tgt in ("cell", "cnt"):
+            for rn, ra in rargs:
+                for second in ("read-pre", "write", "read-value"):
+                    wf, rf = ("f", tgt, wa), ("f", tgt, ra)
+                    if tgt == "cell":
+                        weff = ("assign", wf, ("b", True), None, ())
+                        rpre = rf
+                        weff2 = ("assign", rf, ("b", False), None, ())
+                        veff = ("assign", ("f", "b"), rf, None, ())
+                    else:
+                        weff = ("inc", wf, I(1), None, ())
+                        rpre = ("le", I(1), rf)
+                        weff2 = ("assign", rf, I(2), None, ())
+                        veff = ("assign", ("f", "n"), rf, None, ())
+                    if second == "read-pre":
+                        a2 = {"name": "snd", "params": (("j", ("int", 0, 2)),), "pre": (rpre,), "eff": (("assign", ("f", "b"), ("b", True), None, ()),)}
+                    elif second == "write":
+                        a2 = {"name": "snd", "params": (("j", ("int", 0, 2)),), "pre": (), "eff": (weff2,)}
+                    else:
+                        a2 = {"name": "snd", "params": (("j", ("int", 0, 2)),), "pre": (), "eff": (veff,)}
+                    ps = {
+                        "name": "intarg", "types": (("T", None),), "objects": (("o1", "T"),),
+                        "fluents": (
+                            ("b", ("bool",), (), ("b", False)),
+                            ("n", ("int", 0, 3), (), ("i", 0)),
+                            ("cell", ("bool",), (("k", ("int", 0, 2)),), ("b", False)),
+                            ("cnt", ("int", 0, 3), (("k", ("int", 0, 2)),), ("i", 0)),
+                        ),
+                        "actions": ({"name": "fst", "params": (("i", ("int", 0, 1)),), "pre": (), "eff": (weff,)}, a2),
+                        "goals": (), "ifuns": (), "init": (), "metric": None, "traj": (),
+                    }
+                    out.append(("intarg:%s(%s)/%s(%s)" % (tgt, wn, second, rn), ps))
+    return out
+
+
+INTARG = _intarg_specs()
+
+
+def intarg_ids():
+    """[(level, cid)] of the INTARG problems, for the universes of the checks that include them"""
+    return [(1, (("intarg", i),)) for i in range(len(INTARG))]
